@@ -472,6 +472,8 @@ var c12Perturbations = []string{
 
 // perturb changes one aspect of the candidate; renewal says whether the renewal fields exist
 func c12Perturb(rng *rand.Rand, c *c12Cand, p string, renewal, v3 bool) {
+	// a perturbation that does not apply to the shape an earlier one left behind is a no-op
+	defer func() { recover() }()
 	cfg := &c.cfg
 	fc := &c.fc
 	hostV := func() *types.Currency {
